@@ -222,6 +222,12 @@ class Concretiser:
         if isinstance(ty, TObj):
             cls = ty.cls
             real = getattr(importlib.import_module(cls.module.name), cls.name)
+            if issubclass(real, tuple) and hasattr(real, "_fields"):
+                # typing.NamedTuple: immutable, built from its field values at once
+                o = real(**{fname: self.value(self.field(oid, fname), ty.fields.get(fname)) for fname in real._fields})
+                self.objs[oid] = o
+                self.types[oid] = ty
+                return o
             o = real.__new__(real) if issubclass(real, BaseException) else object.__new__(real)
             self.objs[oid] = o
             self.types[oid] = ty
@@ -246,6 +252,9 @@ class Concretiser:
             self.types[oid] = ty
             for fname, fty in ty.fields.items():
                 object.__setattr__(o, fname, self.value(self.field(oid, fname), fty))
+            for fname, fty in getattr(ty, "optional", {}).items():
+                if "has:" + fname in self.heap and self.value(self.field(oid, "has:" + fname)) is True:     # (no array: the path never looked - absent will do)
+                    object.__setattr__(o, fname, self.value(self.field(oid, fname), fty))
             o._stores.clear()
             return o
         if isinstance(ty, TTuple):
@@ -521,6 +530,8 @@ def gen_value(E, ctx, ty, rng, depth=0):
     if isinstance(ty, TObj):
         cls = ty.cls
         real = getattr(importlib.import_module(cls.module.name), cls.name)
+        if issubclass(real, tuple) and hasattr(real, "_fields"):
+            return real(**{f: gen_value(E, ctx, ty.fields.get(f), rng, depth + 1) for f in real._fields})
         o = object.__new__(real)
         for f, fty in ty.fields.items():
             object.__setattr__(o, f, gen_value(E, ctx, fty, rng, depth + 1))
@@ -532,6 +543,9 @@ def gen_value(E, ctx, ty, rng, depth=0):
         o = stub_class(ty)()
         for f, v in vals.items():
             object.__setattr__(o, f, v)
+        for f, fty in getattr(ty, "optional", {}).items():
+            if rng.random() < 0.5:
+                object.__setattr__(o, f, gen_value(E, ctx, fty, rng, depth + 1))
         o._stores.clear()
         return o
     if isinstance(ty, TFn):
